@@ -1101,6 +1101,7 @@ static void bfs(Run &r, Make make, int depth)
 	std::deque<Node> frontier;
 	uint64_t nontrivial = 0;
 	int nops = 0;
+	bool cut = false;      // some state at the depth bound was left unexpanded
 	{
 		Vec v(1, 0);
 		if (r.enter(v, "init")) {
@@ -1116,14 +1117,14 @@ static void bfs(Run &r, Make make, int depth)
 	}
 	while (!frontier.empty()) {
 		Node n = frontier.front(); frontier.pop_front();
-		if ((int) n.hist.size() - 1 >= depth) continue;
-		if (r.expired()) break;
+		if ((int) n.hist.size() - 1 >= depth) { cut = true; continue; }
+		if (r.expired()) { cut = true; break; }
 		// one system replays the (already verified) prefix and tells which letters are enabled in this state
 		auto prefix = [&](bool verify) -> S * {
 			S *s = make();
 			bool ok = !s->violated;
 			for (size_t i = 1; i < n.hist.size() && ok; ++i) ok = s->apply((int) n.hist[i], QUIET);
-			if (ok && verify) { bool rf = s->refresh(); ok = rf && hash128(s->canon()) == n.h; if (!ok && getenv("C05_DEBUG")) { FILE *f = fopen("/tmp/c05dbg.txt", "a"); fprintf(f, "DEBUG refresh=%d canon=%s vec=%s cb=%s\n", rf, s->canon().c_str(), vec_str(n.hist).c_str(), g_cbgroup.c_str()); fclose(f); } }
+			if (ok && verify) ok = s->refresh() && hash128(s->canon()) == n.h;
 			if (!ok) { delete s; return 0; }
 			return s;
 		};
@@ -1157,6 +1158,7 @@ static void bfs(Run &r, Make make, int depth)
 		delete s;
 	}
 	r.count("nontrivial", nontrivial);
+	r.count(cut ? "jobs cut at the depth bound" : "jobs explored to closure (every reachable bounded state expanded)");
 }
 template <class S, class Make>
 static void bfs_replay_one(Run &r, Make make, const Vec &v)
@@ -1180,17 +1182,17 @@ static void bfs_replay_one(Run &r, Make make, const Vec &v)
 // =====================================================================================================
 // jobs
 // =====================================================================================================
-// depth per job family: the serial-stamped kind has the sharpest oracle and the smallest state space and goes deepest;
+// depth per job family.  The bounded state spaces of the serial-stamped kind, the command kind and unique/typed_array are
+// small enough to be explored to closure in the thorough tier (the bound 12 is never reached: see the closure counter);
 // meta mirrors array (pointer + addref/unref) and conf multiplies the content classes, both stay one level below
 static int depth_of(Tier t, const std::string &job)
 {
 	bool q = t == Quick;
-	if (!job.compare(0, 10, "buf:serial")) return q ? 3 : 5;
-	if (!job.compare(0, 8, "buf:conf") || !job.compare(0, 8, "buf:meta")) return q ? 2 : 3;
-	if (!job.compare(0, 7, "buf:cmd")) return q ? 3 : 5;
-	if (!job.compare(0, 4, "buf:")) return q ? 3 : 4;
-	if (!job.compare(0, 6, "cxx:0:") || !job.compare(0, 6, "cxx:1:")) return q ? 4 : 6;
-	return q ? 3 : 5;     // reference_array / item_array
+	if (!job.compare(0, 10, "buf:serial") || !job.compare(0, 7, "buf:cmd")) return q ? 3 : 12;
+	if (!job.compare(0, 8, "buf:conf") || !job.compare(0, 8, "buf:meta")) return q ? 2 : 4;
+	if (!job.compare(0, 4, "buf:")) return q ? 3 : 5;
+	if (!job.compare(0, 6, "cxx:0:") || !job.compare(0, 6, "cxx:1:")) return q ? 4 : 12;
+	return q ? 3 : 6;     // reference_array / item_array
 }
 void mc_jobs(Tier t, std::vector<std::string> &jobs)
 {
